@@ -19,7 +19,7 @@ from vt.monitors import contracts, reach
 ID = 'C01'
 TIERS = {
     'quick': dict(shards=16, cases=800, watchdog_s=900),
-    'thorough': dict(shards=16, cases=30000, watchdog_s=7000),
+    'thorough': dict(shards=16, cases=30000, big_columns=16, watchdog_s=7000),
 }
 RULE = ('case = frame spec (1-4 columns drawn from 25 recognised column kinds, null pattern none/one/two/many/all, '
         '0-60 rows, hostile field names) x rex off/on x transport dict/file x verify/detect x repair on/off; the '
@@ -29,7 +29,7 @@ ASSUMPTIONS = [
     "recognised types = the list in the property's quantifier; pandas-3 `str` and `string` extension columns are generated only as an extra, separately reported class",
     'a field for which nothing is discovered is vacuous (counted, not a pass)',
 ]
-REQUIRED_MONITORS = ['closure:verify', 'closure:detect', 'verdicts:observed', 'reach:discover_field_constraints',
+REQUIRED_MONITORS = ['frames:big_string_column', 'closure:verify', 'closure:detect', 'verdicts:observed', 'reach:discover_field_constraints',
                      'reach:find_rexes', 'reach:repair_field_types']
 REQUIRED_CLASSES = ['kind=%s' % k for k in F.RECOGNISED] + ['rex=1', 'rex=0', 'transport=file', 'transport=dict',
                                                              'mode=verify', 'mode=detect', 'repair=1', 'repair=0',
@@ -195,8 +195,25 @@ def FAM_RECOGNISED(kind):
     return kind in F.RECOGNISED
 
 
+def big_column_case(rng):
+    """A string column with more distinct values than rexpy takes whole (4000): regular ids plus a few values of other
+    shapes - the empty string among them - that a sample can easily leave out."""
+    n = rng.choice([4100, 12001, 20000, 30000])
+    vals = ['id%05d' % k for k in range(n)] + rng.choice([[''], ['', 'x-1'], ['zz 9'], ['']])
+    rng.shuffle(vals)
+    spec = {'nrows': len(vals), 'cols': [{'name': 'code', 'kind': 'str_obj', 'values': vals, 'nulls': 'none'}]}
+    return {'spec': spec, 'rex': True, 'transport': rng.choice(['dict', 'file']), 'mode': rng.choice(['verify', 'detect']), 'repair': False,
+            'detect_opts': {'per_constraint': True, 'write_all': False, 'output_fields': None, 'outfile': None}, 'prng': rng.randrange(2 ** 31)}
+
+
 def run_shard(ctx):
     n = ctx.params['cases']
+    if ctx.shard < ctx.params.get('big_columns', 8):
+        import random
+        c = big_column_case(ctx.rng)
+        random.seed(c['prng'])             # (discovery samples with the global PRNG: part of the case)
+        run_case(ctx, c)
+        ctx.rec.event('frames:big_string_column')
     for i in range(n):
         run_case(ctx, gen_case(ctx.rng, i if ctx.shard % 4 == 0 else i + 4 * len(F.RECOGNISED)))
     flush(ctx.rec)
